@@ -59,6 +59,8 @@ JOBS = [
     Job('MGRS.Reverse.values', 'MGRS::Reverse', ['C05'], unwind=30, strcap=29, timeout=400, replace=[LOOKUP, 'MGRS::UTMRow'], const_classes=['UTMUPS'],
         unwindset={'MGRS_Reverse.0': 30, 'MGRS_Reverse.1': 15, 'verif_index_of.0': 26, 'verif_strlen.0': 26}, defines=['MR_VALUES'],
         assume=('in_mgrs.len <= 6', 'the value clauses concern prec <= 0 only, and MGRS.Reverse/post.accept_structure shows prec >= 1 for every accepted string longer than 6'),
+        # this job is restricted to strings of at most 6 characters (see `assume`): more than 11 digit pairs cannot occur in it
+        allow_unreachable=[r'block:if \(prec1 > maxprec_\)'],
         description='MGRS decoder, coordinates of grid-zone-only and 100 km strings'),
     Job('MGRS.UTMRow', 'MGRS::UTMRow', ['C05', 'C14'], description='row/band compatibility (exhaustive over all 3200 argument triples)'),
     # ---- UTMUPS (C04)
@@ -183,6 +185,9 @@ JOBS = [
     Job('PolygonArea.AreaReduce', 'PolygonAreaT::AreaReduce', ['C08', 'C14'], timeout=600, inline=[('PolygonAreaT::Remainder', dict(select=r'real'))],
         variants=[('range', [], ['post.range']), ('zero', [], ['post.zero_area']), ('even_signed', [], ['post.even_signed']), ('even_unsigned', [], ['post.even_unsigned']),
                   ('odd', [], ['post.odd_magnitude'])],
+        # after remainder(area, A) and the half-area correction |area| <= A/2 holds, so `area > A/2` and `area >= A` never hold: the two `area -= _area0`
+        # statements are defensive dead code (shown by the verifier: unreachable for every input)
+        allow_unreachable=[r'^\s*area -= _area0;'],
         description='reduction of the accumulated area modulo the ellipsoid area; sign / reverse conventions'),
     # ---- geoid (C20)
     Job('Geoid.height', 'Geoid::height', ['C20', 'C13', 'C14'], timeout=600, unwind=13, sat='cadical',
@@ -197,7 +202,9 @@ JOBS = [
         description='raster reader: longitude wrap, pole reflection, area-cache addressing (file offsets inside the raster)'),
     Job('Geoid.height.history', 'Geoid::height', ['C20'], timeout=900, unwind=13, sat='cadical', harness='history', enforce=False,
         replace=[('Geoid::rawval', dict(may_throw=True)), ('Math::AngNormalize', dict(ghost=False)), 'Math::LatFix'],
-        description='lemma: the values interpolated are the raster values of the cell whatever the cache state / threading mode; cache stays consistent'),
+        # the lemma is stated for bilinear interpolation (its harness assumes !_cubic): the twelve stencil reads of the cubic branch are outside it
+        allow_unreachable=[r'call of Geoid_rawval at src/Geoid\.cpp:3(3[5-9]|4[0-9])'],
+        description='lemma: the values interpolated are the raster values of the cell whatever the cache state / threading mode; cache stays consistent (bilinear)'),
     Job('Geoid.height.ranges', 'Geoid::height', ['C20'], timeout=14000, unwind=13, sat='cadical', harness='history', enforce=False, tier='thorough', defines=['GEOID_RANGE_LEMMAS'],
         replace=[('Geoid::rawval', dict(may_throw=True)), ('Math::AngNormalize', dict(ghost=False)), 'Math::LatFix'],
         description='lemma: cell indices inside the grid and interpolation weights in [0,1] (floating-point range reasoning with symbolic grid size)'),
@@ -209,6 +216,9 @@ JOBS = [
     Job('coeff.index', 'coeff::index', ['C19', 'C13', 'C14'], sat='cadical', timeout=900, description='slot of the coefficient of degree n, order m in the packed triangular storage'),
     Job('coeff.index.lemmas', None, ['C19'], lean='lemmas/CoeffIndex.lean', timeout=1800,
         description='Lean lemmas: the slot lies inside a vector of Csize(N, M) entries; the slot function is injective (over the integers; cbmc shows index == slot without overflow)'),
+    Job('coeff.ctor', 'coeff::coeff', ['C19', 'C13'], arity=5, replace=['coeff::index', 'SphericalEngine::RootTable'], sat='cadical', timeout=600,
+        rewrites=[(r'\b([CS])\.begin\(\)', r'\1->p'), (r'\b([CS])\.size\(\)', r'\1->n')],
+        description='coefficient set constructor: index relations and vector sizes validated before anything is read'),
     Job('coeff.Sv', 'coeff::Sv', ['C19', 'C14'], arity=4, select=r'int n', description='sine coefficient with truncation to the used degree / order'),
     Job('coeff.Cv', 'coeff::Cv', ['C19', 'C14'], arity=4, select=r'int n', description='cosine coefficient with truncation to the used degree / order'),
     Job('coeff.Ssize', 'coeff::Ssize', ['C19', 'C13', 'C14'], inline=['coeff::Csize'], sat='cadical', timeout=600, description='number of sine coefficients'),
@@ -219,6 +229,24 @@ JOBS = [
         rewrites=[(r'_tmexact = [^;]*;', '')], description='constructor: parameter validation; Krueger coefficient table addressing'),
     Job('Geodesic.ctor', 'Geodesic::Geodesic', ['C13'], arity=3, replace=['Math::eatanhe', 'Geodesic::A3coeff', 'Geodesic::C3coeff', 'Geodesic::C4coeff'],
         rewrites=[(r'_geodexact = [^;]*;', ''), (r'_c2 = _geodexact\._c2;', ';')], timeout=600, description='constructor: parameter validation'),
+    Job('LambertConformalConic.ctor', 'LambertConformalConic::LambertConformalConic', ['C13'], arity=4, select=r'real stdlat, real k0', replace=['Math::sincosd', 'LambertConformalConic::Init'], timeout=300,
+        description='constructor (one standard parallel): parameter validation'),
+    Job('LambertConformalConic.ctor2', 'LambertConformalConic::LambertConformalConic', ['C13'], arity=5, select=r'real stdlat1, real stdlat2', cname='LambertConformalConic_LambertConformalConic2', replace=['Math::sincosd', 'LambertConformalConic::Init'], timeout=300,
+        description='constructor (two standard parallels): parameter validation'),
+    Job('LambertConformalConic.ctor3', 'LambertConformalConic::LambertConformalConic', ['C13'], arity=7, select=r'real sinlat1, real coslat1', cname='LambertConformalConic_LambertConformalConic3', replace=['LambertConformalConic::Init'], timeout=300,
+        description='constructor (sines and cosines of the standard parallels): parameter validation'),
+    Job('AlbersEqualArea.ctor', 'AlbersEqualArea::AlbersEqualArea', ['C13'], arity=4, select=r'real stdlat, real k0', replace=['Math::sincosd', 'AlbersEqualArea::Init', 'AlbersEqualArea::atanhee'], timeout=300,
+        description='constructor (one standard parallel): parameter validation'),
+    Job('AlbersEqualArea.ctor2', 'AlbersEqualArea::AlbersEqualArea', ['C13'], arity=5, select=r'real stdlat1, real stdlat2', cname='AlbersEqualArea_AlbersEqualArea2', replace=['Math::sincosd', 'AlbersEqualArea::Init', 'AlbersEqualArea::atanhee'], timeout=300,
+        description='constructor (two standard parallels): parameter validation'),
+    Job('AlbersEqualArea.ctor3', 'AlbersEqualArea::AlbersEqualArea', ['C13'], arity=7, select=r'real sinlat1, real coslat1', cname='AlbersEqualArea_AlbersEqualArea3', replace=['AlbersEqualArea::Init', 'AlbersEqualArea::atanhee'], timeout=300,
+        description='constructor (sines and cosines of the standard parallels): parameter validation'),
+    Job('TransverseMercatorExact.ctor', 'TransverseMercatorExact::TransverseMercatorExact', ['C13'], arity=4,
+        rewrites=[(r'_eEu = _mu;', ''), (r'_eEv = _mv;', '')], description='constructor: parameter validation (f must be positive)'),
+    Job('GeodesicExact.ctor', 'GeodesicExact::GeodesicExact', ['C13'], arity=2, rewrites=[(r'_fft\.reset\(N\);', ';')], timeout=900, sat='cadical',
+        description='constructor: parameter validation; index into the table of area-series sizes in bounds for every accepted ellipsoid'),
+    Job('AuxLatitude.ctor', 'AuxLatitude::AuxLatitude', ['C13', 'C14'], arity=2, select=r'real a, real f', unwind=218, timeout=600,
+        description='constructor: parameter validation; the coefficient cache starts empty (all NaN)'),
     Job('Geocentric.Rotation', 'Geocentric::Rotation', ['C07', 'C13', 'C14'], description='rotation matrix: frame and copied entries'),
     Job('Geocentric.IntReverse', 'Geocentric::IntReverse', ['C07', 'C13', 'C14'], replace=['Math::atan2d', 'Geocentric::Rotation'], timeout=900, sat='cadical',
         description='geocentric -> geodetic: ranges of latitude and longitude, frame, optional matrix pointer'),
